@@ -375,3 +375,59 @@ def require_wired(chk, flow, expr, wants, rule, where, ok_text, bad_text, key, s
     if verdict == "unknown":
         raise AnalysisError(f"{where}: {ok_text}: found `{t}`, which is computed rather than referenced; not decided")
     return chk.require(verdict == "equal", rule, where, ok_text, f"{bad_text} (found `{t}`)", key=key, sample=sample)
+
+
+
+def dep_closure(fi, exprs):
+    """names the expressions may depend on, data or control, inside one function (over-approximation: every definition of a
+    name, every in-place update  x.m(args) / x[k] = v / x += v  of it, and the tests / iterables that guard those statements)"""
+    from .core import parents
+    lb = fi.local_bindings()
+    updates = {}
+    for n in fi.own_nodes():
+        root, val = None, []
+        if isinstance(n, ast.Expr) and isinstance(n.value, ast.Call) and isinstance(n.value.func, ast.Attribute):
+            r = n.value.func.value
+            while isinstance(r, (ast.Attribute, ast.Subscript)):
+                r = r.value
+            if isinstance(r, ast.Name):
+                root, val = r.id, list(n.value.args) + [k.value for k in n.value.keywords]
+        elif isinstance(n, (ast.Assign, ast.AugAssign)):
+            for t in (n.targets if isinstance(n, ast.Assign) else [n.target]):
+                r = t
+                extra = []
+                while isinstance(r, (ast.Attribute, ast.Subscript)):
+                    if isinstance(r, ast.Subscript):
+                        extra.append(r.slice)
+                    r = r.value
+                if isinstance(r, ast.Name) and (r is not t or isinstance(n, ast.AugAssign)):
+                    root, val = r.id, [n.value] + extra
+        if root is None:
+            continue
+        guards = []
+        for p in parents(n):
+            if p is fi.node:
+                break
+            if isinstance(p, (ast.If, ast.While)):
+                guards.append(p.test)
+            elif isinstance(p, (ast.For, ast.AsyncFor)):
+                guards.append(p.iter)
+        updates.setdefault(root, []).extend(val + guards)
+    seen, todo = set(), [x.id for e in exprs for x in ast.walk(e) if isinstance(x, ast.Name)]
+    while todo:
+        nm = todo.pop()
+        if nm in seen:
+            continue
+        seen.add(nm)
+        vals = []
+        for kind, val in lb.get(nm, []):
+            if kind == "aug":
+                vals.append(val.value)
+            elif kind == "unpack":
+                vals.append(val[1])
+            elif isinstance(val, ast.AST):
+                vals.append(val)
+        vals += updates.get(nm, [])
+        for v in vals:
+            todo += [x.id for x in ast.walk(v) if isinstance(x, ast.Name)]
+    return seen
